@@ -12,6 +12,10 @@ RULE = ('gin-machine/skip: config texts mixing known / unknown / ambiguous targe
         'parsed with skip_unknown in {omitted, False, True, [], [names], (names), {names}}; independent oracle: a '
         'statement-level reference interpreter of the property text (delete covered unknown targets and missing imports, '
         'keep placeholders, anything else unknown is an error) + every placeholder must raise on use and at finalize. '
+        'Whenever a statement was deleted (incl. imports of missing modules, static and dynamic registration, 6 spellings, also '
+        'before the line enabling dynamic registration), config_str() / operative_config_str() after using every bound '
+        'configurable must EQUAL those of a second fresh gin given the text with those statements deleted (an exception of '
+        'either is an observation); finalize() on placeholders must raise the ValueError, nothing else. '
         'non-trivial = the text targets an unknown configurable AND (skip_unknown is list-valued OR an applied binding holds an unknown-reference placeholder).')
 TRUSTED_BASE = c16.TRUSTED_BASE
 ASSUMPTIONS = ['static registration (imports may register configurables: modelled); the dynamic-registration clause of the property is exercised by the C19 engine']
@@ -84,8 +88,10 @@ def conv(v, sk, known=None):
   raise Stop('ValueError')
 
 
-def reference(stmts, sk, plugins=None):
+def reference(stmts, sk, plugins=None, kept=None):
+  """-> (store, error class or None); `kept` (a list) receives the statements that are NOT deleted, in order"""
   store, order = {}, []
+  kept = [] if kept is None else kept
   known = dict(KNOWN)
   plugins = plugins or {}
 
@@ -103,15 +109,20 @@ def reference(stmts, sk, plugins=None):
           for full in plugins[st[1]]:            # importing the module registers its configurables: known from here on
             known[full] = full
             known[full.split('.')[-1]] = full
-        elif st[1] not in c16.MODULES and not (sk is True or (isinstance(sk, list) and sk[1])):
-          raise Stop('ModuleNotFoundError')
+        elif st[1] not in c16.MODULES:
+          if not (sk is True or (isinstance(sk, list) and sk[1])):
+            raise Stop('ModuleNotFoundError')
+          continue                               # import of a missing module: deleted
+        kept.append(st)
       elif k == 'macro':
         put(st[1], 'gin.macro', 'value', conv(st[2], sk, known))
+        kept.append(st)
       elif k == 'bind':
         val = conv(st[4], sk, known)          # the value is parsed (references created) before the skip decision
         sel = st[2]
         if sel in known:
           put(st[1], known[sel], st[3], val)
+          kept.append(st)
         elif sel in AMBIG:
           raise Stop('KeyError')
         elif not covered(sel, sk):
@@ -122,6 +133,7 @@ def reference(stmts, sk, plugins=None):
         if sel in known:
           for (p, _), val in zip(st[3], vals):
             put(st[1], known[sel], p, val)
+          kept.append(st)
         elif sel in AMBIG:
           raise Stop('KeyError')
         elif not covered(sel, sk):
@@ -157,6 +169,47 @@ def has_unk(c):
   return False
 
 
+def shown(m, store_obs, first=()):
+  """what gin's public API shows about the configuration a parse left behind: every configurable that has bindings is
+  called once in each of its scopes (whatever that raises -- placeholders do), then config_str() and
+  operative_config_str(); an exception of either is part of the observation, never a harness failure"""
+  out = {}
+  for s, q, _ in list(first) + list(store_obs):
+    if q in m.wrappers:
+      try:
+        with m.gin.config_scope(s):
+          m.wrappers[q]()
+      except Exception:  # pylint: disable=broad-except
+        pass
+  for name in ('config_str', 'operative_config_str'):
+    try:
+      out[name] = getattr(m.gin, name)()
+    except Exception as e:  # pylint: disable=broad-except
+      out[name] = 'RAISED %s: %s' % (type(e).__name__, str(e)[:300])
+  return out
+
+
+def deletion_check(engine, c, kept, holders, got):
+  """the property's own wording, observed at config_str(): the configuration after parsing with skip_unknown enabled is
+  EXACTLY the one obtained from the text with the covered unknown statements and the imports of missing modules deleted
+  (parsed by a second, fresh gin with the same skip_unknown: placeholders inside applied bindings stay)"""
+  fails = []
+  m2 = textm.TextMachine(engine.case({'stmts': kept, 'sk': c['sk']}))
+  try:
+    obs2, _ = m2.run()
+    want = shown(m2, obs2[1], holders) if (isinstance(obs2[0], T) and obs2[0].tag == 'Ok') else {'parse': C.jsonable(obs2[0])}
+  except Exception as e:  # pylint: disable=broad-except
+    want = {'reduced text': 'RAISED %s: %s' % (type(e).__name__, e)}
+  finally:
+    m2.close()
+  for name in sorted(set(got) | set(want)):
+    if got.get(name) != want.get(name):
+      fails.append(('skip-not-a-deletion', 'skip_unknown=%r: %s after parsing %r is %r; after parsing the text with the unknown '
+                    'statements / missing imports deleted, %r, it is %r' %
+                    (c['sk'], name, render(c['stmts']), got.get(name), render(kept) if kept else '', want.get(name))))
+  return fails
+
+
 class SkipEngine(Engine):
   name = 'skip-unknown'
   imports = 'Model.SelectorMap Model.Parser Model.Stmt'
@@ -169,7 +222,14 @@ class SkipEngine(Engine):
     st = [['bind', '', 'f', 'a', ['ref', 'u1', True]], ['block', 's1', 'u1', [['x', ['lit', '1']], ['y', ['ref', 'f', False]]]],
           ['bind', '', 'pkg.u2', 'q', ['lit', '2']], ['import', 'missing.mod'], ['macro', 'mac', ['ref', 'nosuch', False]],
           ['bind', '', 'g', 'a', ['list', [['ref', 'k', False], ['ref', 's1/u1', True]]]]]
-    return [{'stmts': st, 'sk': sk} for sk in SKS]
+    # imports of missing modules (first, between and after applied statements, next to an import of a present module)
+    # in a text whose applied bindings hold no placeholder: what is left is observable through config_str() only
+    st2 = [['import', 'nope'], ['bind', '', 'f', 'a', ['lit', '1']], ['import', 'pkg.mod'], ['bind', 's1', 'u1', 'q', ['lit', '2']],
+           ['import', 'missing.mod'], ['bind', '', 'k', 'zz', ['list', [['lit', '3'], ['ref', 'g', False]]]]]
+    st3 = [['bind', 's1', 'g', 'a', ['lit', '4']], ['import', 'missing.mod']]
+    return ([{'stmts': st, 'sk': sk} for sk in SKS] +
+            [{'stmts': st2, 'sk': sk} for sk in (True, ['list', ['u1']], ['set', ['u1', 'nosuch']], False)] +
+            [{'stmts': st3, 'sk': ['tuple', ['u1', 'pkg.u2']]}])
 
   def gen(self, rng, tier):
     stmts = []
@@ -201,12 +261,15 @@ class SkipEngine(Engine):
     for i in range(len(c['stmts'])):
       yield {'stmts': c['stmts'][:i] + c['stmts'][i + 1:], 'sk': c['sk']}
 
+  plugins = None
+
   def impl(self, c):
     m = textm.TextMachine(self.case(c))
     fails, tags = [], []
+    kept, got, holders = [], None, []
     try:
-      obs, stable = m.run()
-      want_store, want_err = reference(c['stmts'], c['sk'])
+      obs, _ = m.run()
+      want_store, want_err = reference(c['stmts'], c['sk'], self.plugins, kept)
       res = obs[0]
       got_err = None if (isinstance(res, T) and res.tag == 'Ok') else (res.args[0] if res.tag == 'Err' else 'SyntaxError')
       tags.append('sk:' + ('omitted' if c['sk'] is None else str(c['sk'])[:12]))
@@ -231,17 +294,26 @@ class SkipEngine(Engine):
             except Exception as e:  # pylint: disable=broad-except
               if not (isinstance(e, TypeError) and 'macro()' in str(e)):   # an unbound macro evaluated first
                 fails.append(('placeholder-wrong-error', '%s: %s' % (type(e).__name__, e)))
+        if len(kept) != len(c['stmts']):
+          got = shown(m, obs[1])               # something was deleted: observed before finalize locks the config
         if holders:
           try:
             m.gin.finalize()
             fails.append(('placeholder-passed-finalize', repr(holders)))
           except ValueError:
             pass
+          except Exception as e:  # pylint: disable=broad-except
+            fails.append(('placeholder-wrong-error', 'skip_unknown=%r on %r: finalize() raised %s: %s instead of the '
+                          '"no configurable matching" ValueError' % (c['sk'], render(c['stmts']), type(e).__name__, e)))
     finally:
       m.close()
+    if got is not None:
+      fails += deletion_check(self, c, kept, holders, got)   # (same history in the second gin: the placeholder uses first)
+    return {'obs': obs, 'fails': fails[:3], 'nontrivial': self.nontrivial(c, obs), 'tags': tags}
+
+  def nontrivial(self, c, obs):
     dropped = any(st[0] in ('block', 'bind') and st[2] in UNKNOWN for st in c['stmts'])
-    nontrivial = dropped and (isinstance(c['sk'], list) or any(has_unk(v) for _, _, pd in obs[1] for _, v in pd))
-    return {'obs': obs, 'fails': fails[:3], 'nontrivial': nontrivial, 'tags': tags}
+    return dropped and (isinstance(c['sk'], list) or any(has_unk(v) for _, _, pd in obs[1] for _, v in pd))
 
 
 PLUGINS = {'c15plug_one': ['late.lfn'], 'c15plug_two': ['late2.zfn', 'late2.wfn']}
@@ -282,27 +354,12 @@ class SkipPluginEngine(SkipEngine):
     d['plugins'] = PLUGINS
     return d
 
-  def impl(self, c):
-    m = textm.TextMachine(self.case(c))
-    fails, tags = [], []
-    try:
-      obs, _ = m.run()
-      want_store, want_err = reference(c['stmts'], c['sk'], PLUGINS)
-      res = obs[0]
-      got_err = None if (isinstance(res, T) and res.tag == 'Ok') else (res.args[0] if res.tag == 'Err' else 'SyntaxError')
-      tags += ['sk:' + ('omitted' if c['sk'] is None else str(c['sk'])[:12]), 'err:%s' % got_err]
-      if got_err != want_err:
-        fails.append(('skip-outcome', 'skip_unknown=%r on %r: outcome %r, the property requires %r' %
-                      (c['sk'], render(c['stmts']), got_err, want_err)))
-      elif C.jsonable(obs[1]) != C.jsonable(want_store):
-        fails.append(('skip-configuration', 'skip_unknown=%r on %r: store %r, the property requires %r' %
-                      (c['sk'], render(c['stmts']), C.jsonable(obs[1]), C.jsonable(want_store))))
-    finally:
-      m.close()
+  plugins = PLUGINS                       # SkipEngine.impl with the registrations the imports make
+
+  def nontrivial(self, c, obs):
     imported = [i for i, st in enumerate(c['stmts']) if st[0] == 'import' and st[1] in PLUGINS]
     late = [i for i, st in enumerate(c['stmts']) if st[0] == 'bind' and st[2].split('.')[-1] in ('lfn', 'zfn', 'wfn')]
-    nontrivial = bool(imported) and any(i > imported[0] for i in late) and isinstance(c['sk'], list)
-    return {'obs': obs, 'fails': fails[:3], 'nontrivial': nontrivial, 'tags': tags}
+    return bool(imported) and any(i > imported[0] for i in late) and isinstance(c['sk'], list)
 
 
 # ---------------------------------------------------------------------------------------------------------------------
@@ -318,6 +375,10 @@ DYN_PRELUDES = ['none', 'dyn-file', 'dyn-file-skipping', 'static', 'same-text']
 # configures c15dyn.util.<f> first, which registers it; the PARTIAL spelling N = util.<f> / <f> then matches that
 # registration although the text's imports do not provide a symbol `util` / `<f>`
 DYN_SAME_TEXT = ('util.K', 'util.fn', 'fn')
+# imports of modules that do not exist (kind 'miss' in the body, 'miss_top' before the line that enables dynamic
+# registration): all four spellings, a missing top-level module and a missing submodule of a package that exists
+DYN_MISSING = ['import c15nomod', 'from c15nomod import thing', 'import c15nomod.sub as alias', 'from c15aux import nosub',
+               'import c15aux.nosub', 'from c15nomod.sub import thing as th']
 
 
 class DynKnownEngine(Engine):
@@ -349,13 +410,26 @@ class DynKnownEngine(Engine):
         ('fn', 'same-text', ['set', ['@N']], ['ref']), ('util.K', 'same-text', ['list', ['@N']], ['block']),
         ('util.fn', 'same-text', ['list', ['zz.other']], ['bind'])]:
       out.append({'name': n, 'prelude': pre, 'sk': sk, 'own': 'plain', 'kinds': kinds})
+    # imports of missing modules between applied statements (the text's own names only / next to deleted statements)
+    out.append({'name': 'u.fn', 'prelude': 'none', 'sk': True, 'own': 'as', 'kinds': ['own', 'miss', 'own', 'miss'], 'miss_top': 0})
+    out.append({'name': 'sfn', 'prelude': 'none', 'sk': ['list', ['@N']], 'own': 'from-as', 'kinds': ['miss', 'bind', 'own', 'miss', 'miss']})
+    out.append({'name': 'u.fn', 'prelude': 'dyn-file', 'sk': ['set', ['zz.other']], 'own': 'plain', 'kinds': ['own', 'miss'], 'miss_top': 2})
+    out.append({'name': 'fn', 'prelude': 'none', 'sk': False, 'own': 'plain', 'kinds': ['own', 'miss', 'own']})
     return out
 
   def gen(self, rng, tier):
     n = rng.choice(sorted(DYN_NAMES))
     pres = [p for p in DYN_PRELUDES if (DYN_NAMES[n] or not p.startswith('dyn-file')) and (n in DYN_SAME_TEXT or p != 'same-text')]
-    return {'name': n, 'prelude': rng.choice(pres), 'sk': rng.choice(DYN_SKS), 'own': rng.choice(sorted(DYN_OWN)),
-            'kinds': [rng.choice(['bind', 'sbind', 'block', 'ref', 'lref', 'own', 'own']) for _ in range(rng.randint(1, 4))]}
+    c = {'name': n, 'prelude': rng.choice(pres), 'sk': rng.choice(DYN_SKS), 'own': rng.choice(sorted(DYN_OWN)),
+         'kinds': [rng.choice(['bind', 'sbind', 'block', 'ref', 'lref', 'own', 'own']) for _ in range(rng.randint(1, 4))]}
+    if rng.random() < 0.5:                       # (drawn after the older fields: their distribution is unchanged)
+      for _ in range(rng.randint(1, 2)):
+        c['kinds'].insert(rng.randint(0, len(c['kinds'])), 'miss')
+      if rng.random() < 0.3:
+        c['miss_top'] = rng.randrange(len(DYN_MISSING))
+      if rng.random() < 0.5:
+        c['sk'] = rng.choice([s for s in DYN_SKS if s is True or (isinstance(s, list) and s[1])])
+    return c
 
   # -- the text under test, as data ------------------------------------------------------------------------------------
   @staticmethod
@@ -373,18 +447,24 @@ class DynKnownEngine(Engine):
         out.append(['bind', '', p, 'v', ['ref', 's1/' + n if i % 2 else n, i % 3 != 0]])
       elif k == 'lref':
         out.append(['bind', 's1', p, 'w', ['list', [['lit', str(i)], ['ref', n, False], ['list', [['ref', 's2/' + n, True]]]]]])
+      elif k == 'miss':
+        out.append(['import', DYN_MISSING[(i + len(case['kinds'])) % len(DYN_MISSING)]])
       else:
         out.append(['bind', '', p, 'w' if i % 2 else 'v', ['lit', str(100 + i)]])
     return out
 
   @staticmethod
-  def text(case, stmts):
+  def text(case, stmts, reduced=False):
     lines = ['from __gin__ import dynamic_registration', DYN_OWN[case['own']][0]]
+    if case.get('miss_top') is not None and not reduced:
+      lines.insert(0, DYN_MISSING[case['miss_top']])
     if case['prelude'] == 'same-text':
       lines += ['import c15dyn.util', 'c15dyn.util.%s.x = 7' % case['name'].split('.')[-1]]
     for st in stmts:
       pre = st[1] + '/' if st[1] else ''
-      if st[0] == 'bind':
+      if st[0] == 'import':
+        lines.append(st[1])
+      elif st[0] == 'bind':
         lines.append('%s%s.%s = %s' % (pre, st[2], st[3], val_text(st[4])))
       else:
         lines.append('%s%s:' % (pre, st[2]))
@@ -392,10 +472,15 @@ class DynKnownEngine(Engine):
     return '\n'.join(lines) + '\n'
 
   @staticmethod
-  def expected(case, stmts, sk):
-    """statement-level reading of the property: (raises?, store) -- only the text's own imports make a name known"""
+  def expected(case, stmts, sk, kept=None):
+    """statement-level reading of the property: (raises?, store) -- only the text's own imports make a name known;
+    `kept` (a list) receives the statements that are not deleted"""
     n = case['name']
     cov = sk is True or (isinstance(sk, list) and n in sk[1])
+    enabled = sk is True or (isinstance(sk, list) and bool(sk[1]))
+    kept = [] if kept is None else kept
+    if case.get('miss_top') is not None and not enabled:
+      return True, {}                              # the very first statement imports a missing module
     store = {'|' + n.split('.')[-1]: {'x': 7}} if case['prelude'] == 'same-text' else {}
 
     class Bad(Exception):
@@ -411,6 +496,10 @@ class DynKnownEngine(Engine):
       return ['Unk', v[1].rsplit('/', 1)[-1], v[2]]
     try:
       for st in stmts:
+        if st[0] == 'import':                        # (of a missing module)
+          if not enabled:
+            raise Bad()
+          continue                                   # deleted
         pairs = [[st[3], st[4]]] if st[0] == 'bind' else st[3]
         vals = [[q, val(v)] for q, v in pairs]       # values are read before the target is looked at
         if st[2] == n:
@@ -419,6 +508,7 @@ class DynKnownEngine(Engine):
           continue                                   # deleted
         for q, v in vals:
           store.setdefault('%s|gn' % st[1], {})[q] = v
+        kept.append(st)
       return False, store
     except Bad:
       return True, store
@@ -451,7 +541,7 @@ class DynKnownEngine(Engine):
       for m in [m for m in sys.modules if m.split('.')[0] in ('c15dyn', 'c15aux')]:
         del sys.modules[m]
 
-    def run(prelude):
+    def run(prelude, text=text):
       """-> (error class or None, store, gin)"""
       purge()
       gin = C.fresh_gin()
@@ -490,8 +580,30 @@ class DynKnownEngine(Engine):
       return err, store, gin
     try:
       sys.path.insert(0, d)
-      want_err, want_store = self.expected(case, stmts, sk)
+      kept = []
+      want_err, want_store = self.expected(case, stmts, sk, kept)
+      deleted = len(kept) != len(stmts) or case.get('miss_top') is not None
+      reduced_text = self.text(case, kept, reduced=True)
       results = {}
+
+      def shown(gin, store, first):
+        """every scope that has bindings for the text's own function is used once (whatever that raises), then
+        config_str() / operative_config_str(); what they raise is part of the observation"""
+        import c15aux.other  # pylint: disable=g-import-not-at-top
+        out = {}
+        for k in list(first) + sorted(store):
+          if k.endswith('|gn'):
+            try:
+              with gin.config_scope(k.split('|')[0] or None):
+                gin.get_configurable(c15aux.other.gn)()
+            except Exception:  # pylint: disable=broad-except
+              pass
+        for name in ('config_str', 'operative_config_str'):
+          try:
+            out[name] = getattr(gin, name)()
+          except Exception as e:  # pylint: disable=broad-except
+            out[name] = 'RAISED %s: %s' % (type(e).__name__, str(e)[:300])
+        return out
       for prelude in (['none', case['prelude']] if case['prelude'] in ('dyn-file', 'dyn-file-skipping', 'static') else [case['prelude']]):
         err, store, gin = run(prelude)
         results[prelude] = (err, store)
@@ -515,12 +627,27 @@ class DynKnownEngine(Engine):
                   fails.append(('placeholder-wrong-error', '%s: %s' % (what, e)))
               except Exception as e:  # pylint: disable=broad-except
                 fails.append(('placeholder-wrong-error', '%s: %s: %s' % (what, type(e).__name__, e)))
+          got = shown(gin, store, []) if deleted else None      # before finalize locks the configuration
+          if holders:
             try:
               gin.finalize()
               fails.append(('placeholder-passed-finalize', '%s: %r' % (what, holders)))
             except ValueError as e:
               if 'No configurable matching' not in str(e):
                 fails.append(('placeholder-wrong-error', '%s: finalize: %s' % (what, e)))
+            except Exception as e:  # pylint: disable=broad-except
+              fails.append(('placeholder-wrong-error', '%s: finalize() raised %s: %s instead of the "No configurable matching" '
+                            'ValueError' % (what, type(e).__name__, e)))
+          if got is not None:
+            # the property's own wording, observed at config_str(): the configuration is EXACTLY the one obtained from the
+            # text with the statements that target N and the imports of missing modules deleted (a second fresh gin, same
+            # history, same skip_unknown: placeholders inside applied bindings stay)
+            err2, store2, gin2 = run(prelude, reduced_text)
+            want = shown(gin2, store2, holders) if not err2 else {'parse': err2}
+            for name in sorted(set(got) | set(want)):
+              if got.get(name) != want.get(name):
+                fails.append(('skip-not-a-deletion', '%s: %s is %r; after parsing the text with the unknown statements / missing '
+                              'imports deleted, %r, it is %r' % (what, name, got.get(name), reduced_text, want.get(name))))
       if len(results) == 2 and results['none'] != results[case['prelude']] and not fails:
         fails.append(('known-depends-on-history', 'skip_unknown=%r, text %r: fresh process %r, after prelude %s %r' %
                       (sk, text, results['none'], case['prelude'], results[case['prelude']])))
